@@ -508,6 +508,47 @@ def run_history(scenario, only=None):
                     edited.add(idx)
                     return
 
+    checked_templates = set()
+
+    def check_templates_against_string(idx, event):
+        """Reference by construction: the fragment set the sampler works with is the one the string denotes
+        (elements / bead names, bonds with orders, every descriptor on the atom it was written after)."""
+        if idx in checked_templates or idx in edited:
+            return
+        checked_templates.add(idx)
+        cfg = sc["configs"][idx]
+        lib = templates_for(idx)
+        for tmpl in cfg["templates"]:
+            graph = lib.get(tmpl["name"])
+            if graph is None:
+                violations.append({"oracle": "C16.template", "event": event["seq"], "detail": "fragment %s of the string is missing from the fragment set" % tmpl["name"]})
+                continue
+            nodes = sorted(graph.nodes)
+            natoms = len(tmpl["atoms"])
+            ion = len(nodes) - natoms          # a counter ion appended as a disconnected part comes last
+            if ion not in (0, 1):
+                violations.append({"oracle": "C16.template", "event": event["seq"],
+                                   "detail": "fragment %s has %d atoms, the string writes %d" % (tmpl["name"], len(nodes), natoms)})
+                continue
+            for pos, atom in enumerate(tmpl["atoms"]):
+                data = graph.nodes[nodes[pos]]
+                label_ok = (data.get("atomname") == atom.get("name")) if "name" in atom else \
+                    (data.get("element") == atom["el"] and int(data.get("charge", 0) or 0) == atom["charge"])
+                want = tmpl["descs"].get(str(pos), [])
+                got = list(data.get("bonding", []) or [])
+                if not label_ok or got != want:
+                    violations.append({"oracle": "C16.template C16.complement", "event": event["seq"],
+                                       "detail": "fragment %s (%s): atom %d is %r with descriptors %r, the string writes %r with %r"
+                                                 % (tmpl["name"], tmpl["text"], pos, data.get("element", data.get("atomname")), got,
+                                                    atom.get("el", atom.get("name")), want)})
+                    break
+            got_edges = sorted((min(nodes.index(u), nodes.index(v)), max(nodes.index(u), nodes.index(v)), float(o if o is not None else 1))
+                               for u, v, o in graph.edges(data="order") if nodes.index(u) < natoms and nodes.index(v) < natoms)
+            want_edges = sorted((a, b, float(o)) for a, b, o in tmpl["bonds"])
+            if got_edges != want_edges:
+                violations.append({"oracle": "C16.template", "event": event["seq"],
+                                   "detail": "fragment %s (%s): bonds %r, the string writes %r" % (tmpl["name"], tmpl["text"], got_edges[:8], want_edges[:8])})
+
     def construct(idx, seed):
         cfg = sc["configs"][idx]
         kwargs = {"polymer_reactivities": materialise(copy.deepcopy(cfg["polymer_reactivities"])), "all_atom": cfg["all_atom"], "seed": seed}
@@ -527,6 +568,7 @@ def run_history(scenario, only=None):
     def do_sample(idx, sampler, event, judge_masses=True):
         cfg = sc["configs"][idx]
         found = []
+        _guard(check_templates_against_string, idx, event)
         monitor = StepMonitor(cfg, templates_for(idx), found)
         monitor_box["monitor"] = monitor
         draws0 = simrandom.draws if simrandom else 0
